@@ -51,7 +51,7 @@ func writeManifest() {
 			Technique: p.Technique,
 		})
 	}
-	var na []map[string]string
+	na := []map[string]string{}
 	var naIDs []string
 	for id := range notApplicable {
 		naIDs = append(naIDs, id)
